@@ -6,5 +6,5 @@ if ! git diff --quiet; then echo "/repo dirty"; exit 9; fi
 if git apply --check $d/patch.diff 2>/dev/null; then git apply $d/patch.diff; else git apply --3way $d/patch.diff 2>/dev/null || { echo "PATCH DOES NOT APPLY"; git reset -q --hard HEAD; exit 8; }; fi
 cd /verif; ./check $p --tier $t 2>&1 | grep -v '^WARNING' | grep -E "VIOLATION|failed obligation|^\[C|UNDECIDED|CHECKER-FAULT|KNOWN" | cut -c1-260 | head -${LINES_MAX:-12}
 rc=${PIPESTATUS[0]}
-cd /repo; git checkout -- . ; git status --short | grep -v '^??' | head -2
+cd /repo; git reset -q --hard HEAD; git status --short | grep -v "^??" | head -2
 echo "exit=$rc"
